@@ -192,7 +192,9 @@ class Paths(Harness):
     bounds = {"quick": "2 markets (one may have zero volatility), chunk size 2 or 3, horizon 7 steps, one change "
                        "(drift / volatility incl. 0 <-> positive / set or remove correlation / price shock) at t in 1..5; "
                        "a drift change followed by a second change at a later time with no read in between",
-              "thorough": "3 markets, two successive changes"}
+              "thorough": "adds every first change (drift / volatility / volatility to zero / correlation / shock) x second "
+                          "change (volatility / drift of another market / correlation) x pair of change times 1 <= t < t2 <= 5, "
+                          "chunk sizes 2 and 3 (with chunk 8 some of these nonlinear queries end unknown: left out)"}
     reach = ("nontrivial", "zero-vol-path", "vol-crosses-zero", "history-kept", "second-change-without-read")
     stubs = LogReturns.stubs + ("numpy.exp -> contract stub (exp > 0, sign, monotone)",)
     outside = ("float rounding of exp/cumsum", "start_at != 0", "setters called with their default time=0 (which regenerates everything by design)")
@@ -210,6 +212,16 @@ class Paths(Harness):
             for second in ("vol", "drift-other", "set-corr"):
                 for t, t2 in ((1, 3), (2, 3), (1, 5)):
                     out.append({"chunk": chunk, "kind": "drift", "t": t, "zero1": False, "then": second, "t2": t2})
+        if tier == "thorough":
+            # every first change x every second change x every pair of change times, chunks 2 and 3
+            for chunk in (2, 3):
+                for kind in ("drift", "vol", "vol-to-zero", "set-corr", "shock"):
+                    for second in ("vol", "drift-other", "set-corr"):
+                        for t in range(1, 5):
+                            for t2 in range(t + 1, 6):
+                                c = {"chunk": chunk, "kind": kind, "t": t, "zero1": False, "then": second, "t2": t2}
+                                if c not in out:
+                                    out.append(c)
         return out
 
     HORIZON = 7
@@ -261,7 +273,7 @@ class Paths(Harness):
             elif case.get("then") == "drift-other":
                 f.change_drift(1, g.real("mu1b", -1, 1), time=case["t2"])
             elif case.get("then") == "set-corr":
-                f.set_correlation(0, 1, g.real("rho", -1, 1, lo_strict=True, hi_strict=True), time=case["t2"])
+                f.set_correlation(0, 1, g.real("rho2", -1, 1, lo_strict=True, hi_strict=True), time=case["t2"])
             if case.get("then"):
                 g.note("second-change-without-read")
             if case["kind"] != "none":
